@@ -30,8 +30,8 @@ def main():
     i = sys.argv.index("--")
     demo_args = sys.argv[3:i]
     checks = sys.argv[i + 1:]
-    src = "/tmp/seedout/%s" % sid
-    wt = "/tmp/sw-%s" % sid
+    src = os.path.join(os.environ.get("SEED_SRC", "/tmp/seedout"), sid)
+    wt = "/tmp/sw-%s%s" % (sid, os.environ.get("SEED_TAG", ""))
     subprocess.run(["git", "-C", "/repo", "worktree", "remove", "--force", wt], stdout=subprocess.DEVNULL, stderr=subprocess.DEVNULL)
     subprocess.run(["git", "-C", "/repo", "worktree", "add", "-q", wt, "HEAD"], check=True)
     out = {"id": sid, "head": subprocess.check_output(["git", "-C", "/repo", "log", "--format=%h", "-1"], text=True).strip()}
